@@ -52,3 +52,38 @@ func (tb *TB) SIdx(off, i *Term) *Term {
 	tb.AddAxiom("s_idx", tb.Quant(true, []*Term{o, k}, tb.Eq(tb.App("s_idx", "Int", o, k), tb.Add(o, k)), tb.App("s_idx", "Int", o, k)))
 	return tb.App("s_idx", "Int", off, i)
 }
+
+// ConstArray is the array with every element equal to zero. For literal element values SMT-LIB's
+// (as const ...) is used; otherwise (cvc5 insists on a value there) a named array with the axiom
+// forall k. a[k] = zero.
+func (tb *TB) ConstArray(idxSort, elemSort string, zero *Term) *Term {
+	srt := ArraySort(idxSort, elemSort)
+	if zero.Kind == kLit {
+		return tb.mk(kApp, "(as const "+srt+")", srt, zero)
+	}
+	var sb []byte
+	sb = append(sb, "zarr!"...)
+	sb = append(sb, mangle(srt)...)
+	sb = append(sb, '!')
+	sb = append(sb, mangle(tb.Show(zero))...)
+	name := string(sb)
+	if len(name) > 80 {
+		name = "zarr!" + mangle(srt)[:20] + "!" + itoa(int(hashString(tb.Show(zero))))
+	}
+	c := tb.Const(name, srt)
+	k := tb.BoundVar("k", idxSort)
+	tb.AddAxiom("constarray "+name, tb.Quant(true, []*Term{k}, tb.Eq(tb.Select(c, k), zero), tb.Select(c, k)))
+	return c
+}
+
+func itoa(n int) string {
+	if n == 0 {
+		return "0"
+	}
+	s := ""
+	for n > 0 {
+		s = string(rune('0'+n%10)) + s
+		n /= 10
+	}
+	return s
+}
